@@ -160,5 +160,5 @@ def result(a, sig_nontrivial=True):
     return res
 
 
-def gen_case(rng, tier, index):
-    return gen_rewrite.generate(rng, tier)
+def gen_case(rng, tier, index, **knobs):
+    return gen_rewrite.generate(rng, tier, **knobs)
